@@ -230,5 +230,7 @@ def from_list_record(x):
     return {"id": x["id"], "op": x["op"], "cls": x["cls"], "exc": "" if not x["exc"] or x["op"] == "get_oob" else "",
             # results that are fresh frames on the unchanged tree (boolean-mask filters, sorts, concat): editing them must not reach the input
             "copy": x["op"] in ("deepcopy", "move_start", "move_end", "append", "after", "before", "between", "sorted", "mask"),
-            "before": {"rows": x["pre"], "meta": x["meta_pre"]}, "after": {"rows": x["pre_after"], "meta": x["meta_after"]},
-            "poked": {"rows": x["pre"], "meta": x["meta_pre"]} if not x.get("shared") else {"shared": 1}}
+            # (an appended argument is an input of the call as well)
+            "before": {"rows": x["pre"], "meta": x["meta_pre"], "arg": x.get("arg_pre", [])},
+            "after": {"rows": x["pre_after"], "meta": x["meta_after"], "arg": x.get("arg_after", [])},
+            "poked": {"rows": x["pre"], "meta": x["meta_pre"], "arg": x.get("arg_pre", [])} if not x.get("shared") else {"shared": 1}}
